@@ -61,7 +61,7 @@ def gen_file(r, fi, nblocks, scripts, counter):
     blocks = []
     for _ in range(nblocks):
         counter[0] += 1
-        sb = scenario.gen_block(r, "n%d" % counter[0], scripts, use_ai=False, use_lua=True)
+        sb = scenario.gen_block(r, "n%d" % counter[0], scripts, use_ai=False, use_lua=True, bogus_severity=False)
         attrs = [(k, v) for k, v in sb.attrs]
         attrs.insert(1, ("data-rev", str(r.randint(1, 8))))
         if r.random() < 0.08:
@@ -82,7 +82,7 @@ def gen_file(r, fi, nblocks, scripts, counter):
         blocks.append(nb)
         if layout == "shared" and r.random() < 0.5 and len(blocks) < nblocks + 3:
             counter[0] += 1
-            sb2 = scenario.gen_block(r, "n%d" % counter[0], scripts, use_ai=False, use_lua=True)
+            sb2 = scenario.gen_block(r, "n%d" % counter[0], scripts, use_ai=False, use_lua=True, bogus_severity=False)
             a2 = [(k, v) for k, v in sb2.attrs if k != "keep-sorted-format"]
             a2.insert(1, ("data-rev", str(r.randint(1, 8))))
             twin = B2(sb2.name, a2, [FILLER[ext] % (1000 + counter[0])], "shared")
